@@ -18,7 +18,7 @@ def kind_of(sx):
 
 
 def cases(O):
-    n = 400 if O.tier == "quick" else 3000
+    n = 400 if O.tier == "quick" else 9000
     opts = {"reparse": True}
     cs = E.default_cases(O, "C08", n_quick=n, n_thorough=n, opts=opts)
     files = vlib.corpus_files()
